@@ -491,6 +491,7 @@ def concatenate(arrs, axis=0, dtype=None, **k):
     arrs = list(arrs)
     if not has_sym(arrs):
         return _np.concatenate(arrs, axis=axis, dtype=dtype)
+    arrs = [array(a) if isinstance(a, (list, tuple)) else a for a in arrs]
     return SA(_np.concatenate([_obj(a) for a in arrs], axis=axis), _join_kind(*arrs))
 
 
@@ -1130,6 +1131,21 @@ class SM:
 
     def get(self, i, j):
         return self.entries.get((i, j), 0.0)
+
+    # lil-format views (row-wise lists, columns ascending), as scipy's lil_array exposes them
+    @property
+    def rows(self):
+        out = _np.empty(self.shape[0], dtype=object)
+        for i in range(self.shape[0]):
+            out[i] = sorted(j for (r, j) in self.entries if r == i)
+        return out
+
+    @property
+    def data(self):
+        out = _np.empty(self.shape[0], dtype=object)
+        for i in range(self.shape[0]):
+            out[i] = [self.entries[(i, j)] for j in sorted(j for (r, j) in self.entries if r == i)]
+        return out
 
     def pattern(self):
         return sorted(self.entries)
